@@ -222,7 +222,7 @@ func init() {
 		"log.New":               func(fr *frame, args []value) value { v := zero(mustDeref(fr.fn.Signature.Results().At(0).Type())); return &v },
 
 		// ---- context: never cancelled, no deadline
-		"context.WithTimeout":  extContextWith,
+		"context.WithTimeout":  extContextWithTimeout,
 		"context.WithCancel":   extContextWith,
 		"context.WithDeadline": extContextWith,
 
@@ -540,6 +540,19 @@ func extPoolGet(fr *frame, args []value) value {
 }
 
 // ---- context
+
+// context.WithTimeout goes to the harness function vpWithTimeout when there is one (request
+// timeouts as symbolic inputs, see zz_vp_api.go); the harness's own fallback vpPlainTimeout, and any
+// program without that function, get a context that never expires.
+func extContextWithTimeout(fr *frame, args []value) value {
+	if fr.caller != nil && fr.caller.fn != nil && fr.caller.fn.Name() == "vpPlainTimeout" {
+		return extContextWith(fr, args)
+	}
+	if fn := fr.i.mainPkg.Func("vpWithTimeout"); fn != nil {
+		return call(fr.i, fr, 0, fn, args)
+	}
+	return extContextWith(fr, args)
+}
 
 func extContextWith(fr *frame, args []value) value {
 	cancel := nativeFn{name: "context.cancel", fn: noop}
